@@ -35,15 +35,42 @@ func c37Run(r *simkit.Run) {
 
 	pool := quicmemberlist.NewVerifMembersPool()
 
-	newMember := func(a c37Addr, gen int) quicmemberlist.Member {
-		nd := common.Local(a.node)
+	// the memberlist name of a member: unique per join, or one name per address that survives re-joins (launch uses
+	// the id of the local storage as the name, which outlives a change of the node address)
+	stableNames := r.Flag("stable_member_names")
 
-		m, err := quicmemberlist.NewMember(fmt.Sprintf("%s-gen%d", a, gen), a.udp, nd.Address(), nd.Publickey(), fmt.Sprintf("10.0.%d.%d:%d", a.node, a.n+1, 4000+a.n), true)
+	// an address may come back under another node (a node that was given a new address and key re-joins from the
+	// same host and port)
+	moving := nnodes > 1 && r.Flag("addresses_move_between_nodes")
+
+	labels := map[string]string{} // publish -> "<addr>-gen<g>", the identity of one join
+	nodeOf := map[int]int{}       // generation -> node it joined under
+
+	newMember := func(a c37Addr, gen, node int) quicmemberlist.Member {
+		nd := common.Local(node)
+
+		name := fmt.Sprintf("%s-gen%d", a, gen)
+		publish := fmt.Sprintf("10.%d.%d.%d:%d", node, a.node, a.n+1, 1000+gen)
+		labels[publish] = name
+
+		if stableNames {
+			name = a.String()
+		}
+
+		m, err := quicmemberlist.NewMember(name, a.udp, nd.Address(), nd.Publickey(), publish, true)
 		if err != nil {
 			panic(err)
 		}
 
 		return m
+	}
+
+	label := func(m quicmemberlist.Member) string {
+		if l, ok := labels[m.Publish().Addr().String()]; ok {
+			return l
+		}
+
+		return "unknown-member(" + m.Name() + " " + m.Publish().String() + ")"
 	}
 
 	// model: which addresses are present, and with which generation
@@ -52,6 +79,7 @@ func c37Run(r *simkit.Run) {
 	type step struct {
 		kind int // 0 join, 1 leave, 2 lookups
 		a    int
+		node int // the node a join is made under
 	}
 
 	gen := 0
@@ -73,8 +101,10 @@ func c37Run(r *simkit.Run) {
 				r.Fail("lookup-by-address", "present-member-not-found", "%s: Get(%s) reports not found for a present member (returned member nil=%v)", where, a, m == nil)
 			case !is && found:
 				r.Fail("lookup-by-address", "absent-member-found", "%s: Get(%s) reports found for a member that is not present", where, a)
-			case is && m.Name() != fmt.Sprintf("%s-gen%d", a, g):
-				r.Fail("lookup-by-address", "stale-member", "%s: Get(%s) returned %q, the present member is gen%d", where, a, m.Name(), g)
+			case is && label(m) != fmt.Sprintf("%s-gen%d", a, g):
+				r.Fail("lookup-by-address", "stale-member", "%s: Get(%s) returned %q, the present member is gen%d", where, a, label(m), g)
+			case is && !m.Address().Equal(common.Local(nodeOf[g]).Address()):
+				r.Fail("lookup-by-address", "stale-member", "%s: Get(%s) returned a member of node %s, the present member joined under node%d", where, a, m.Address(), nodeOf[g])
 			}
 		}
 
@@ -90,7 +120,7 @@ func c37Run(r *simkit.Run) {
 			var want []string
 
 			for i, a := range addrs {
-				if g, is := present[i]; is && a.node == nd {
+				if g, is := present[i]; is && nodeOf[g] == nd {
 					want = append(want, fmt.Sprintf("%s-gen%d", a, g))
 				}
 			}
@@ -99,7 +129,7 @@ func c37Run(r *simkit.Run) {
 
 			var got []string
 			for _, m := range pool.NodeMembers(common.Local(nd).Address()) {
-				got = append(got, m.Name())
+				got = append(got, label(m))
 			}
 
 			sort.Strings(got)
@@ -136,10 +166,15 @@ func c37Run(r *simkit.Run) {
 		case 0:
 			gen++
 			g := gen
+			nodeOf[g] = s.node
 			_, was := present[s.a]
-			added := pool.Set(newMember(a, g))
+			added := pool.Set(newMember(a, g, s.node))
 			present[s.a] = g
-			r.Op("%s join %s gen%d -> added=%v", who, a, g, added)
+			r.Op("%s join %s gen%d under node%d -> added=%v", who, a, g, s.node, added)
+
+			if s.node != a.node {
+				r.Probe("address_joined_under_another_node")
+			}
 
 			if !concurrent && added == was {
 				r.Fail("presence", "set-return", "Set(%s) returned added=%v but the member was present=%v", a, added, was)
@@ -160,6 +195,11 @@ func c37Run(r *simkit.Run) {
 		steps := make([]step, n)
 		for i := range steps {
 			steps[i] = step{kind: []int{0, 0, 1}[r.Choose(3)], a: only[r.Choose(len(only))]}
+			steps[i].node = addrs[steps[i].a].node
+
+			if moving && r.Chance(1, 3) {
+				steps[i].node = r.Choose(nnodes)
+			}
 		}
 
 		return steps
@@ -230,8 +270,12 @@ func c37Run(r *simkit.Run) {
 
 				var g int
 
-				if _, err := fmt.Sscanf(m.Name()[strings.Index(m.Name(), "-gen"):], "-gen%d", &g); err != nil || g < 1 || g > gen || !strings.HasPrefix(m.Name(), a.String()+"-gen") {
-					r.Fail("lookup-by-address", "foreign-member", "after racing joins/leaves Get(%s) returned %q, which was never joined under that address", a, m.Name())
+				l := label(m)
+
+				if i := strings.Index(l, "-gen"); i < 0 || !strings.HasPrefix(l, a.String()+"-gen") {
+					r.Fail("lookup-by-address", "foreign-member", "after racing joins/leaves Get(%s) returned %q, which was never joined under that address", a, l)
+				} else if _, err := fmt.Sscanf(l[i:], "-gen%d", &g); err != nil || g < 1 || g > gen {
+					r.Fail("lookup-by-address", "foreign-member", "after racing joins/leaves Get(%s) returned %q, which was never joined under that address", a, l)
 				}
 
 				present[i] = g
@@ -249,7 +293,7 @@ func init() {
 		Run:         c37Run,
 		Real:        []string{"quicmemberlist.membersPool (Set, Remove, Get, Exists, MembersLen, Len, Traverse, per-node lists)", "util.ShardedMap"},
 		Stub:        []string{"verif-tagged exported wrapper around the unexported pool (scratch copy only)", "memberlist gossip itself is not run"},
-		Rule:        "each run draws 1-3 nodes with 1-3 addresses each and a history of joins, re-joins and leaves: sequentially (the whole table is compared with a presence model after every step) by 2-3 concurrent clients working on disjoint addresses of possibly the same node (compared with the model at quiescence), or by 2-3 concurrent clients racing on the same addresses (the address table is taken as the outcome; lookups, traversal, lengths and per-node lists must be consistent with it). distinct = event-log hash",
+		Rule:        "each run draws 1-3 nodes with 1-3 addresses each, whether memberlist names are unique per join or stable per address, whether an address may re-join under another node, and a history of joins, re-joins and leaves: sequentially (the whole table is compared with a presence model after every step) by 2-3 concurrent clients working on disjoint addresses of possibly the same node (compared with the model at quiescence), or by 2-3 concurrent clients racing on the same addresses (the address table is taken as the outcome; lookups, traversal, lengths and per-node lists must be consistent with it). distinct = event-log hash",
 		Assumptions: []string{"concurrent clients use disjoint addresses so that the expected table does not depend on the interleaving"},
 	})
 }
